@@ -350,6 +350,8 @@ class C03(Prop):
         k = rng.choice(names)
         fd = [f[1] for f in fields if f[0][1] == k][0]
         v = g.valid(fd) if rng.chance(0.7) else g.near_miss(fd)
+        if fd.get('fz') and fd.get('d') is not None and canon(v) == canon(fd['d']):
+          v = copy.deepcopy(fd['d'])      # stated assumption: equal dicts come in equal key order where a frozen default is compared
         ops.append([[('setattr' if kind == 'object' else 'setitem'), k, v], None])
         continue
       entries = []
@@ -381,7 +383,9 @@ class C03(Prop):
           v = g.near_miss(m)
         else:
           v = ['M']
-        ins = isinstance(path[-1], int) and v != ['M'] and rng.chance(0.25)
+        # (an Insertion marker is only meaningful for a list position; on an untyped dict pyglove stores
+        # the marker object itself, which is a C02 matter)
+        ins = isinstance(path[-1], int) and v != ['M'] and m is not None and rng.chance(0.25)
         if [e for e in entries if e[0] == path]:
           continue
         entries.append([path, ins, v])
